@@ -1,8 +1,13 @@
 #!/bin/sh
-# Offline setup: build the syn front end. Everything else is Python (python3-vt) + solvers on PATH.
+# Offline setup: build the syn front end and warm the native-replay build cache.
 set -e
 cd "$(dirname "$0")"
 export CARGO_NET_OFFLINE=true
 (cd zx/front && cargo build --release --offline 2>&1 | tail -3)
 test -x zx/front/target/release/zxfront
+python3-vt -c "
+import sys; sys.path.insert(0,'/verif')
+from zx.native import build_native
+print(build_native('/repo'))
+"
 echo "setup ok"
